@@ -7,6 +7,8 @@ sys.path.insert(0, HERE)
 from corrolint import extract as ex, facts as fx, graph as gx, runner
 
 props = [c["property_id"] for c in json.load(open(os.path.join(HERE, "MANIFEST.json")))["checks"]]
+if os.environ.get("ONLY_PROPS"):
+    props = [p for p in props if p in os.environ["ONLY_PROPS"].split(",")]
 seeds = sorted(glob.glob(os.path.join(HERE, "refactors", "*.diff")))
 if len(sys.argv) > 1:
     seeds = [s for s in seeds if os.path.basename(s)[:-5] in sys.argv[1:]]
@@ -35,6 +37,10 @@ for patch in seeds:
                 viol = ["CRASH: %r" % e]
             if viol:
                 row[p] = viol[:4]
+        if os.environ.get("ONLY_PROPS") and matrix.get(name, {}).get("status") == "ok":
+            prev = {k: v for k, v in matrix[name].get("flagged_by", {}).items() if k not in props}
+            prev.update(row)
+            row = prev
         matrix[name] = {"status": "ok", "flagged_by": row, "wall_s": round(time.time() - t0, 1)}
     except ex.Broken as e:
         matrix[name] = {"status": "broken", "detail": str(e)[-300:]}
